@@ -26,16 +26,17 @@ LEVEL = "exploration"
 RULE = (
     "Generated histories (2..16 commands quick, ..22 thorough; indices resolved modulo the objects created so far) of "
     "sub[plain | take(k): completes and unsubscribes inside its k-th on_next | kill(k, j): unsubscribes subscriber j, possibly itself, "
-    "from inside its k-th on_next] / unsub(i) / conn / disc(i) / adv(dt>=1) over one multicast observable built on a logged cold, synchronous-cold "
+    "from inside its k-th on_next | spawn(k): subscribes a new plain subscriber from inside its k-th on_next] / unsub(i) / conn / disc(i) / adv(dt>=1) over one multicast observable built on a logged cold, synchronous-cold "
     "or hot virtual-time source (<=5 values, gaps 0..3, ending in C / E / nothing) on a TestScheduler or a HistoricalScheduler (datetime clock). Forms: check `connectable` = "
-    "publish(), replay(buffer 0..3|None, window 1..5|None, scheduler=lab), publish_value(v), multicast(Subject | "
+    "publish(), replay(buffer 0..3|None, window 0..5|None, scheduler=lab), publish_value(v), multicast(Subject | "
     "BehaviorSubject | ReplaySubject | AsyncSubject) driven by explicit connect()/dispose of ANY previously returned "
     "connection (stale ones included); check `refcount` = share() and ref_count() on each of those connectables; check "
-    "`autoconnect` = auto_connect(0..3) on each; check `mapper` = publish(mapper), replay(mapper=), publish_value(v, "
+    "`autoconnect` = auto_connect(0..3) on each; in a third of the refcount/autoconnect cases explicit connect() calls on the underlying "
+    "connectable are mixed into the history (never an explicit dispose); check `mapper` = publish(mapper), replay(mapper=), publish_value(v, "
     "mapper), multicast(subject_factory=, mapper=) with mapper in {identity, use-the-connectable-twice}; check `enum` = "
     "ALL histories of length <= 5 (thorough; quick: <= 3, and 4 over the cold source) over a fixed alphabet for 7 forms x 3 sources; "
-    "check `enum_reentrant` = ALL histories of length <= 5 (thorough; quick <= 3, and 4 for publish/share over the cold source) with >= 2 "
-    "subscribers, one of them take(1)/kill, for 6 forms x 2 sources. Oracle = "
+    "check `enum_reentrant` = ALL histories of length <= 5 (thorough; quick <= 3, and 4 for share over the cold source) with >= 2 "
+    "subscribers, one of them take(1)/kill/spawn, for 6 forms x 2 sources. Oracle = "
     "independent model: one source subscription per effective connect, open from the connect tick to the tick of the "
     "disconnect or of the source's terminal; connect while connected is a no-op whose returned handle disconnects the "
     "same connection; ref_count/share connect at count 0->1 and disconnect at ->0; auto_connect(n) connects at the "
@@ -44,15 +45,17 @@ RULE = (
     "model (plain / current value / replay buffer+window / last value) delivers from its subscription until its "
     "unsubscription; one notification is delivered to the snapshot of the subscribers at the start of the delivery, skipping "
     "those unsubscribed earlier during the same delivery (every other subscriber must still get it); a take(k) subscriber gets "
-    "exactly k elements then completion and leaves the subject / decrements the ref-count at that instant. "
+    "exactly k elements then completion and leaves the subject / decrements the ref-count at that instant; a subscriber created inside a "
+    "delivery gets nothing of that delivery from a plain subject, the element exactly once as current/replayed value from publish_value/replay; "
+    "with mixed explicit connects there is still one connection: the wrapper's connect is a no-op on it and ref_count's ->0 edge disconnects it. "
     "Non-trivial: >=2 subscribe commands and (>=2 source subscriptions of the one connectable, i.e. a "
     "reconnect after a disconnect, or a subscribe and an effective unsubscribe at the same virtual instant, or an unsubscription "
     "from inside a delivery while a later subscriber of the snapshot stays subscribed). "
     "Distinct = distinct case JSON."
 )
 ASSUMPTIONS = [
-    "subscribers never subscribe from inside callbacks and never raise (C02/C03/C20-C23's business); they may unsubscribe themselves (take(k), kill) or another "
-    "subscriber (kill) from inside on_next; source timelines conform to the grammar",
+    "subscribers never raise (C02's business); from inside on_next they may unsubscribe themselves (take(k), kill) or another subscriber (kill) or "
+    "subscribe a new plain subscriber (spawn); source timelines conform to the grammar",
     "unsubscribing a subscriber whose subscribe() call has not returned yet (possible only from inside a synchronous emission) takes effect when that call returns",
     "after the source terminated the connection still counts as connected until it is disposed (what connect() does here and in Rx.NET); "
     "a model variant that resets the flag at termination (RxJS) is accepted as well and counted in class alt_only",
@@ -62,7 +65,8 @@ ASSUMPTIONS = [
     "(RxJS skips it); everything else in the source log is compared exactly",
     "a subscriber unsubscribed while replayed/buffered items are still queued on the replay scheduler for the current instant may have received "
     "any part of them; the library delivers none",
-    "explicit connect()/dispose are not mixed with ref_count/auto_connect on the same connectable (property text does not define that)",
+    "explicit connect() may be mixed with ref_count/auto_connect on the same connectable, an explicit dispose of the connection may not "
+    "(who owns a connection that was re-made behind ref_count's back, or whether auto_connect re-connects, is not defined by the property text)",
     "for the use-twice mapper the N events of one instant are compared as a multiset (cross-subscription interleaving on the replay scheduler is not specified)",
     "cases with >=90 actions at one virtual instant are discarded as inconclusive and counted",
 ]
@@ -226,6 +230,10 @@ class _Subj:
             items = items[-self.buf:] if self.buf > 0 else []
         if self.win is not None:
             items = [(t, v) for t, v in items if self.ms.now - t <= self.win]
+            if any(self.ms.now - t == self.win for t, v in items):
+                self.stats.add("replay_window_boundary_retained")
+            if self.win == 0 and self.queue:
+                self.stats.add("replay_window_zero")
         if items:
             self.stats.add("replay_nonempty")
             if len(items) < len(self.queue):
@@ -305,11 +313,16 @@ class _Connection:
         self.conn = conn
         self.disposed = False
         self.sub = None
+        self.origin = "explicit"
 
-    def dispose(self):
+    def dispose(self, by="explicit"):
         if self.disposed:
             return
+        if by == "wrapper" and self.origin == "explicit":
+            self.conn.stats.add("mix_refcount_disposed_explicit_connection")
         self.disposed = True
+        if self.sub is None:
+            raise HarnessError("model: connection disposed while its connect() is still running")
         self.sub.close()
         if self.conn.cur is self:
             self.conn.connected = False
@@ -325,15 +338,21 @@ class _Conn:
         self.cur = None
         self.noop_connects = 0
         self.connects_after_term = 0
+        self.stats = set()
 
-    def connect(self, optional=False):
+    def connect(self, optional=False, origin="explicit"):
         if self.connected:
             self.noop_connects += 1
-            if self.cur.sub.stopped:
+            if self.cur.sub is not None and self.cur.sub.stopped:  # sub is None while the connect itself is still running
                 self.connects_after_term += 1
+            if origin == "wrapper" and self.cur.origin == "explicit":
+                self.stats.add("mix_wrapper_connect_noop_on_explicit_connection")
+            if origin == "explicit" and self.cur.origin == "wrapper":
+                self.stats.add("mix_explicit_connect_noop_on_wrapper_connection")
             return self.cur
         self.connected = True
         c = _Connection(self)
+        c.origin = origin
         self.cur = c
 
         def on_event(k, p):
@@ -362,6 +381,7 @@ class _EP:
         self.sub_instant = None
         self.take = None  # k: completes (and unsubscribes) synchronously inside its k-th on_next
         self.kill = None  # (k, j, model): unsubscribes subscriber j from inside its k-th on_next
+        self.spawn = None  # (k, model): subscribes a new plain subscriber from inside its k-th on_next
         self.nn = 0
         self.pending_user_dispose = False
 
@@ -380,6 +400,10 @@ class _EP:
             model = self.kill[2]
             model.stats.add("kill_fired")
             model.unsub(self.kill[1] % len(model.eps))
+        if self.spawn is not None and self.nn == self.spawn[0]:
+            model = self.spawn[1]
+            model.stats.add("spawn_in_own_subscribe" if self.in_subscribe else "spawn_in_delivery")
+            model.sub(("sub",))
 
     def _terminated(self):
         self.stopped = True
@@ -409,13 +433,13 @@ class _RC:
         should_connect = self.count == 1  # decided by the arrival itself, not by what its first delivery triggers
         tok = conn.subj.subscribe(ep.emit, ep)
         if should_connect:
-            self.handle = conn.connect(optional=was_stopped)
+            self.handle = conn.connect(optional=was_stopped, origin="wrapper")
 
         def dispose():
             conn.subj.unsubscribe(tok)
             self.count -= 1
             if self.count == 0 and self.handle is not None:
-                self.handle.dispose()
+                self.handle.dispose(by="wrapper")
 
         ep.disposer = dispose
 
@@ -428,7 +452,7 @@ class _AC:
         self.count = 0
         self.arrivals = 0
         if n == 0:
-            conn.connect()
+            conn.connect(origin="wrapper")
 
     def subscribe(self, ep):
         conn = self.conn
@@ -437,7 +461,7 @@ class _AC:
         should_connect = (self.arrivals if self.cumulative else self.count) == self.n  # decided by the arrival itself
         tok = conn.subj.subscribe(ep.emit, ep)
         if should_connect:
-            conn.connect()  # no-op once connected: the connection is never disposed
+            conn.connect(origin="wrapper")  # no-op once connected: the connection is never disposed
 
         def dispose():
             conn.subj.unsubscribe(tok)
@@ -453,7 +477,7 @@ def _mk_subj(ms, form):
 
 
 class _Model:
-    def __init__(self, case, alt=False):
+    def __init__(self, case, reset=False, cumulative=False):
         form = case["form"]
         self.form = form
         self.ms = _MS()
@@ -471,11 +495,12 @@ class _Model:
         if not self.mapper:
             subj = _mk_subj(self.ms, form)
             self.subjects.append(subj)
-            self.conn = _Conn(self.ms, self.src, subj, reset_on_term=(alt and self.wrap is None))
+            self.conn = _Conn(self.ms, self.src, subj, reset_on_term=reset)
             if self.wrap == "ref_count":
-                self.w = _RC(self.conn, alt)
+                self.w = _RC(self.conn, None)
             elif self.wrap == "auto_connect":
-                self.w = _AC(self.conn, form["n"], cumulative=alt)
+                self.w = _AC(self.conn, form["n"], cumulative=cumulative)
+        self.mix = bool(form.get("mix")) and self.conn is not None and self.wrap is not None
 
     # commands ------------------------------------------------------------------------
     def sub(self, cmd=("sub",)):
@@ -485,6 +510,8 @@ class _Model:
             ep.take = cmd[2]
         elif len(cmd) > 1 and cmd[1] == "kill":
             ep.kill = (cmd[2], cmd[3], self)
+        elif len(cmd) > 1 and cmd[1] == "spawn":
+            ep.spawn = (cmd[2], self)
         self.eps.append(ep)
         ep.in_subscribe = True
         if self.mapper:
@@ -555,7 +582,7 @@ class _Model:
         ep.dispose()
 
     def connect(self):
-        if self.conn is None or self.wrap is not None:
+        if self.conn is None or (self.wrap is not None and not self.mix):
             return
         self.handles.append(self.conn.connect())
 
@@ -636,6 +663,23 @@ class _KillProbe(Probe):
                 self._real.unsub(self._j % len(self._real.probes))
 
 
+class _SpawnProbe(Probe):
+    """A probe that subscribes a new plain subscriber to the same observable from inside its k-th on_next."""
+
+    def __init__(self, lab, name, real, k):
+        super().__init__(lab, name)
+        self._real = real
+        self._k = k
+        self._nn = 0
+
+    def _rec(self, kind, payload):
+        super()._rec(kind, payload)
+        if kind == "N":
+            self._nn += 1
+            if self._nn == self._k:
+                self._real.sub(("sub",))
+
+
 class _Real:
     def __init__(self, case):
         form = case["form"]
@@ -664,8 +708,10 @@ class _Real:
             raise HarnessError(base)
         wrap = form.get("wrap")
         if not mp and base != "share":
-            if wrap is None:
+            if wrap is None or form.get("mix"):
                 self.connectable = o
+            if wrap is None:
+                pass
             elif wrap == "ref_count":
                 o = o.pipe(ops.ref_count())
             elif wrap == "auto_connect":
@@ -675,6 +721,7 @@ class _Real:
             else:
                 raise HarnessError(wrap)
         self.o = o
+        self.can_disc = wrap is None
         self.probes = []
         self.handles = []
 
@@ -683,6 +730,9 @@ class _Real:
         o = self.o
         if len(cmd) > 1 and cmd[1] == "kill":
             p = _KillProbe(self.lab, name, self, cmd[2], cmd[3])
+            self.lab.probes.append(p)
+        elif len(cmd) > 1 and cmd[1] == "spawn":
+            p = _SpawnProbe(self.lab, name, self, cmd[2])
             self.lab.probes.append(p)
         else:
             p = self.lab.probe(name)
@@ -699,7 +749,7 @@ class _Real:
             self.handles.append(self.connectable.connect(self.lab.sched))
 
     def disc(self, i):
-        if self.connectable is not None and self.handles[i] is not None:  # connect() may return None by its signature
+        if self.connectable is not None and self.can_disc and self.handles[i] is not None:  # connect() may return None by its signature
             self.handles[i].dispose()
 
     def adv(self, dt):
@@ -757,6 +807,8 @@ def _compare(real_view, model, merge2):
     mt, ml = model.view()
     if not _log_matches(rl, ml):
         return "srclog", f"source subscriptions expected={[e[:2] for e in ml]} (optional={[e[:2] for e in ml if e[2]]}) got={rl}"
+    if len(rt) != len(mt):
+        return "trace", f"{len(rt)} subscribers exist, expected {len(mt)} (subscriptions made from inside callbacks)"
     for k, (a, e) in enumerate(zip(rt, mt)):
         ep = model.eps[k]
         if merge2:
@@ -793,6 +845,8 @@ def _label(form):
         s += "+ref_count"
     elif form.get("wrap") == "auto_connect":
         s += "+auto_connect"
+    if form.get("mix"):
+        s += "+explicit_connect"
     if form.get("mapper"):
         s += ":" + form["mapper"]
     return s
@@ -800,27 +854,32 @@ def _label(form):
 
 def _run(case):
     form = case["form"]
-    two_variants = not form.get("mapper") and form["base"] != "share" and form.get("wrap") in (None, "auto_connect")
+    # model variants for the two readings the statement leaves open (see ASSUMPTIONS); variant 0 = what the library does
+    wrap = form.get("wrap")
+    variants = [(False, False)]
+    if not form.get("mapper") and form["base"] != "share":
+        if wrap is None or (wrap == "ref_count" and form.get("mix")):
+            variants = [(False, False), (True, False)]
+        elif wrap == "auto_connect":
+            variants = [(False, False), (False, True)] + ([(True, False), (True, True)] if form.get("mix") else [])
     real = _Real(case)
-    models = [_Model(case, alt=False)] + ([_Model(case, alt=True)] if two_variants else [])
+    models = [_Model(case, reset=r, cumulative=c) for r, c in variants]
     alive = [True] * len(models)
     first_diff = None
     label = _label(form)
     merge2 = form.get("mapper") == "merge2"
-    nsub = 0
 
     def step(cmd):
-        nonlocal nsub
         op = cmd[0]
         targets = [real] + models
         if op == "sub":
-            nsub += 1
             for x in targets:
                 x.sub(cmd)
         elif op == "unsub":
-            if nsub:
-                for x in targets:
-                    x.unsub(cmd[1] % nsub)
+            for x in targets:
+                n = len(x.probes) if x is real else len(x.eps)  # subscribers made inside callbacks count too
+                if n:
+                    x.unsub(cmd[1] % n)
         elif op == "conn":
             for x in targets:
                 x.connect()
@@ -865,7 +924,10 @@ def _run(case):
             return FAIL(f"{clause}|{label}", f"case={case} after command #{idx} {cmd} at tick {lab.now()}: {detail}")
 
     m0 = models[0]
+    nsub = len(m0.eps)
     stats = set(m0.stats)
+    if m0.conn is not None:
+        stats |= m0.conn.stats
     for s in m0.subjects:
         stats |= s.stats
     classes = [f"form:{label}", f"src:{case['src']['kind']}", f"clock:{case.get('clock', 'test')}"] + sorted(stats)
@@ -885,13 +947,15 @@ def _run(case):
             classes.append("connect_noop")
         if m0.conn.connects_after_term and m0.wrap is None:
             classes.append("connect_after_source_terminal")
-    if len(models) == 2:
-        if models[0].view() != models[1].view():
+    if len(models) >= 2:
+        if any(m.view() != models[0].view() for m in models[1:]):
             classes.append("variants_differ")
         if not alive[0]:
             classes.append("alt_only")
-        elif not alive[1]:
+        elif not all(alive):
             classes.append("primary_only")
+    if form.get("mix") and m0.handles:
+        classes.append("mix_explicit_connect_used")
     if any(ep.trace for ep in m0.eps):
         classes.append("some_delivery")
     if sum(1 for ep in m0.eps if any(e[1] == "N" for e in ep.trace)) >= 2:
@@ -911,8 +975,8 @@ _subject_params = {
     "mc_async": st.just({}),
     "publish_value": st.fixed_dictionaries({"init": st.sampled_from(VALS)}),
     "mc_behavior": st.fixed_dictionaries({"init": st.sampled_from(VALS)}),
-    "replay": st.fixed_dictionaries({"buf": st.sampled_from([None, None, 0, 1, 2, 3]), "win": st.sampled_from([None, None, 1, 2, 3, 5])}),
-    "mc_replay": st.fixed_dictionaries({"buf": st.sampled_from([None, None, 0, 1, 2, 3]), "win": st.sampled_from([None, None, 1, 2, 3, 5])}),
+    "replay": st.fixed_dictionaries({"buf": st.sampled_from([None, None, 0, 1, 2, 3]), "win": st.sampled_from([None, None, 0, 1, 2, 3, 5])}),
+    "mc_replay": st.fixed_dictionaries({"buf": st.sampled_from([None, None, 0, 1, 2, 3]), "win": st.sampled_from([None, None, 0, 1, 2, 3, 5])}),
 }
 _BASES = ["publish", "replay", "replay", "publish_value", "mc_subject", "mc_behavior", "mc_replay", "mc_async"]
 
@@ -929,6 +993,8 @@ def _form(draw, group):
     elif group == "autoconnect":
         f["wrap"] = "auto_connect"
         f["n"] = draw(st.sampled_from([0, 1, 1, 2, 2, 2, 3, 3]))
+    if group in ("refcount", "autoconnect") and draw(st.integers(0, 2)) == 0:
+        f["mix"] = True  # explicit connect() calls on the underlying connectable are part of the history (never an explicit dispose)
     elif group == "mapper":
         f["mapper"] = draw(st.sampled_from(["id", "merge2"]))
     return f
@@ -937,6 +1003,8 @@ def _form(draw, group):
 def _cmd(group, adv=True):
     if group == "connectable":
         kinds = ["sub"] * 3 + ["unsub"] * 2 + ["conn"] * 3 + ["disc"] * 2
+    elif group == "mixed":
+        kinds = ["sub"] * 3 + ["unsub"] * 2 + ["conn"] * 2
     else:
         kinds = ["sub"] * 3 + ["unsub"] * 2
     if adv:
@@ -950,12 +1018,12 @@ def _cmd(group, adv=True):
         if k == "disc":
             return st.integers(0, 5).map(lambda i: ["disc", i])
         if k == "sub":
-            return st.sampled_from(["plain"] * 4 + ["take"] * 2 + ["kill"] * 2).flatmap(
+            return st.sampled_from(["plain"] * 4 + ["take"] * 2 + ["kill"] * 2 + ["spawn"] * 2).flatmap(
                 lambda kind: st.just(["sub"])
                 if kind == "plain"
                 else (
-                    st.integers(1, 3).map(lambda n: ["sub", "take", n])
-                    if kind == "take"
+                    st.integers(1, 3).map(lambda n: ["sub", kind, n])
+                    if kind in ("take", "spawn")
                     else st.tuples(st.integers(1, 3), st.integers(0, 5)).map(lambda t: ["sub", "kill", t[0], t[1]])
                 )
             )
@@ -981,19 +1049,21 @@ def _history(draw, group, maxc):
 
 def _cases(group, tier):
     maxc = 16 if tier == "quick" else 22
-    return st.fixed_dictionaries(
-        {
-            "form": _form(group),
-            "src": st.fixed_dictionaries(
-                {
-                    "kind": st.sampled_from(["cold", "cold", "sync", "hot"]),
-                    "tl": timelines(max_len=5, max_dt=3, values=VALS, conforming=True),
-                }
-            ),
-            "cmds": _history(group, maxc),
-            "clock": st.sampled_from(["test", "test", "hist"]),
+
+    @st.composite
+    def go(draw):
+        form = draw(_form(group))
+        return {
+            "form": form,
+            "src": {
+                "kind": draw(st.sampled_from(["cold", "cold", "sync", "hot"])),
+                "tl": draw(timelines(max_len=5, max_dt=3, values=VALS, conforming=True)),
+            },
+            "cmds": draw(_history("mixed" if form.get("mix") else group, maxc)),
+            "clock": draw(st.sampled_from(["test", "test", "hist"])),
         }
-    )
+
+    return go()
 
 
 _ENUM_FORMS = [
@@ -1004,6 +1074,8 @@ _ENUM_FORMS = [
     {"base": "replay", "buf": None, "win": 2, "wrap": "ref_count"},
     {"base": "publish", "wrap": "auto_connect", "n": 2},
     {"base": "publish", "mapper": "merge2"},
+    {"base": "publish", "wrap": "ref_count", "mix": True},
+    {"base": "publish_value", "init": "i0", "wrap": "auto_connect", "n": 2, "mix": True},
 ]
 _ENUM_SRCS = [
     {"kind": "cold", "tl": [[0, "N", "i1"], [1, "N", "i2"], [2, "C", None]]},
@@ -1019,12 +1091,14 @@ def _enum(tier):
         alpha = [["sub"], ["unsub", 0], ["unsub", 1], ["adv", 1]]
         if plain:
             alpha += [["conn"], ["disc", 0], ["disc", 1]]
+        elif form.get("mix"):
+            alpha += [["conn"], ["adv", 2]]
         else:
             alpha += [["adv", 2]]
         for src in _ENUM_SRCS:
             for n in range(1, L + 1):
-                if tier == "quick" and n == L and src["kind"] != "cold":
-                    continue  # quick: the longest length only over the cold source
+                if tier == "quick" and n == L and (src["kind"] != "cold" or form.get("mix")):
+                    continue  # quick: the longest length only over the cold source (and not for the mixed forms)
                 for cmds in itertools.product(alpha, repeat=n):
                     if cmds[-1][0] == "adv":
                         continue  # trailing advances are appended to every history anyway
@@ -1050,13 +1124,13 @@ def _enum_reentrant(tier):
     L = 4 if tier == "quick" else 5
     for fi, form in enumerate(_ENUM_R_FORMS):
         plain = not form.get("wrap") and form["base"] != "share"
-        alpha = [["sub"], ["sub", "take", 1], ["sub", "kill", 1, 1], ["sub", "kill", 2, 0], ["unsub", 0], ["adv", 1]]
+        alpha = [["sub"], ["sub", "take", 1], ["sub", "kill", 1, 1], ["sub", "kill", 2, 0], ["sub", "spawn", 1], ["unsub", 0], ["adv", 1]]
         if plain:
             alpha += [["conn"]]
         for src in _ENUM_R_SRCS:
             for n in range(1, L + 1):
-                if tier == "quick" and n == L and (src["kind"] != "cold" or fi > 1):
-                    continue  # quick: the longest length only for publish/share over the cold source
+                if tier == "quick" and n == L and (src["kind"] != "cold" or fi != 1):
+                    continue  # quick: the longest length only for share over the cold source
                 for cmds in itertools.product(alpha, repeat=n):
                     if cmds[-1][0] == "adv" or sum(1 for c in cmds if c[0] == "sub") < 2 or all(len(c) == 1 for c in cmds if c[0] == "sub"):
                         continue  # needs >= 2 subscribers, one of them re-entrant
@@ -1074,10 +1148,10 @@ def checks(tier):
         )
 
     return [
-        gen("connectable", 2400, 16 * 12000),
-        gen("refcount", 2000, 16 * 10000),
-        gen("autoconnect", 1600, 16 * 6000),
-        gen("mapper", 1600, 16 * 6000),
+        gen("connectable", 2000, 16 * 12000),
+        gen("refcount", 1800, 16 * 10000),
+        gen("autoconnect", 1400, 16 * 6000),
+        gen("mapper", 1200, 16 * 6000),
         Check("enum", _run, cases=_enum, shards={"quick": 8, "thorough": 16}, exhaustive=True),
         Check("enum_reentrant", _run, cases=_enum_reentrant, shards={"quick": 4, "thorough": 16}, exhaustive=True),
     ]
